@@ -10,7 +10,7 @@ from ..finite import k_eq, k_is, k_none
 from ..report import Checker
 from ..srcmodel import Func, Unsupported
 from ..worklist import Model
-from .c05 import check_ctrldep, check_gather, check_worklist
+from .c05 import check_ctrldep, check_gather, check_worklist, late_bound_deferred
 from .c07 import r_gram_arity
 from .c17 import r_exc_escape
 
@@ -43,6 +43,12 @@ def check_legacy_seed_and_records(ck: Checker, f: Func, m: Model, mtxt: str) -> 
 def r_traversals(ck: Checker) -> None:
     dfs = ck.repo.func(LNODE, "AwareASTNode.dfs")
     bfs = ck.repo.func(LNODE, "AwareASTNode.bfs")
+    for trav in (dfs, bfs):
+        late = late_bound_deferred(trav)
+        if late:
+            ck.violation("R-WORKLIST", trav, trav.node, f"{trav.qualname}: no deferred group reads a loop variable after it is rebound",
+                         construct=f"{trav.qualname}: {late}")
+            return
     for mode, exp in (({"bottom_up": False}, "pre-order"), ({"bottom_up": True}, "post-order")):
         m = check_worklist(ck, dfs, mode, exp, legacy=True)
         check_legacy_seed_and_records(ck, dfs, m, ",".join(f"{k}={v}" for k, v in mode.items()))
